@@ -32,12 +32,16 @@ func zzC14_notify() {
 	var chans []<-chan struct{}
 	wantNotifyInHandler := false
 	wantNotifyInError := false
+	panicAt := uint32(0xffffffff) // hop-by-hop id of the message whose handler panics
 	h := &zzC14Handler{
 		serve: func(c Conn, m *Message) {
 			delivered = append(delivered, m.Header.HopByHopID)
 			if wantNotifyInHandler {
 				wantNotifyInHandler = false
 				chans = append(chans, c.(CloseNotifier).CloseNotify())
+			}
+			if m.Header.HopByHopID == panicAt {
+				panic("zz: handler fault")
 			}
 		},
 		// the error reporter runs in the connection's goroutine after the transport was closed and
@@ -60,7 +64,17 @@ func zzC14_notify() {
 	localClose := false // the local side closed the connection (may race with messages in flight)
 	poisoned := false   // an undecodable message was delivered: nothing after it may reach a handler
 	for i := 0; i < ne; i++ {
-		switch vChoice("event", 9) {
+		switch vChoice("event", 10) {
+		case 9: // a message whose handler panics: the connection is terminated by the library's recovery
+			if !terminated {
+				panicAt = next
+				t.in <- zzPlainMessage(257, 0x80, 0, next)
+				if !poisoned {
+					sent = append(sent, next)
+				}
+				next++
+				terminated = true
+			}
 		case 0: // next message's handler requests CloseNotify
 			wantNotifyInHandler = true
 			fallthrough
